@@ -133,9 +133,11 @@ CONTRACTS = {
              "implies(is_eager(binding), result[0] == prefix_of(self, binding) + "
              "        label_of(self.metrics, binding['tensor'], binding['rank'], binding['root'], is_read) + '.csv')"),
             ("lazy_file_name_is_prefix_label_csv",
-             "implies(not is_eager(binding), result[0] == prefix_of(self, binding) + "
-             "        label_of(self.metrics, binding['tensor'], binding['rank'], 'fiber', is_read) + "
-             "        ('_payload' if filtered(self, binding, is_read) else '') + '.csv')"),
+             "implies(not is_eager(binding) and not filtered(self, binding, is_read), result[0] == prefix_of(self, binding) + "
+             "        label_of(self.metrics, binding['tensor'], binding['rank'], 'fiber', is_read) + '.csv')"),
+            ("filtered_file_name_is_prefix_label_payload_csv",
+             "implies(not is_eager(binding) and filtered(self, binding, is_read), result[0] == prefix_of(self, binding) + "
+             "        label_of(self.metrics, binding['tensor'], binding['rank'], 'fiber', is_read) + '_payload.csv')"),
             ("filter_step_iff_filtered",
              "len(result[1].stmts) == (1 if filtered(self, binding, is_read) else 0)"),
             ("filter_reads_the_registered_trace_and_the_iteration_trace",
